@@ -8,6 +8,7 @@ package mtproto
 import (
 	"context"
 	"crypto/rsa"
+	"encoding/binary"
 	"io"
 	"reflect"
 	"sync"
@@ -317,10 +318,23 @@ func (m *MTProto) readMsg() error {
 	return nil
 }
 
+// expectedTypesOf returns hints for decoder for this message. Hints are stored by id of the request, so it
+// makes sense only for rpc_result, which contains id of request right after its crc code.
+func (m *MTProto) expectedTypesOf(msg messages.Common) []reflect.Type {
+	body := msg.GetMsg()
+	if len(body) < tl.WordLen+tl.LongLen || binary.LittleEndian.Uint32(body) != objects.CrcRpcResult {
+		return nil
+	}
+
+	reqMsgID := int64(binary.LittleEndian.Uint64(body[tl.WordLen:]))
+	et, _ := m.expectedTypes.Get(int(reqMsgID))
+	return et
+}
+
 func (m *MTProto) processResponse(msg messages.Common) error {
 	var data tl.Object
 	var err error
-	if et, ok := m.expectedTypes.Get(msg.GetMsgID()); ok && len(et) > 0 {
+	if et := m.expectedTypesOf(msg); len(et) > 0 {
 		data, err = tl.DecodeUnknownObject(msg.GetMsg(), et...)
 	} else {
 		data, err = tl.DecodeUnknownObject(msg.GetMsg())
